@@ -21,12 +21,13 @@ def scenarios(tier):
     s = [sc('set-ins2-ins2', ['PRE=0', 'T1A=12', 'T2A=12']),
          sc('set-era2-era2', ['PRE=4', 'T1A=22', 'T2A=22']),
          sc('set-ins2-era2-present', ['PRE=4', 'T1A=12', 'T2A=22']),
-         sc('set-era1-era2-adjacent', ['PRE=6', 'T1A=21', 'T2A=22']),
-         sc('set-ins2-era1-behind-erased', ['PRE=10', 'T1A=12', 'T2A=21']),
          sc('map-era2-era2', ['USE_MAP', 'PRE=4', 'T1A=22', 'T2A=22']),
          sc('map-goe2-era2', ['USE_MAP', 'PRE=4', 'T1A=42', 'T2A=22'])]
     if tier == 'thorough':
-        s += [sc('set-ins2-era2-absent', ['PRE=0', 'T1A=12', 'T2A=22']),
+        s += [sc('set-era3-ins2-in-front', ['PRE=10', 'T1A=23', 'T2A=12']),
+              sc('set-era1-era2-adjacent', ['PRE=6', 'T1A=21', 'T2A=22']),
+              sc('set-ins2-era1-behind-erased', ['PRE=10', 'T1A=12', 'T2A=21']),
+              sc('set-ins2-era2-absent', ['PRE=0', 'T1A=12', 'T2A=22']),
               sc('set-era2ins2-contains2', ['PRE=4', 'T1A=22', 'T1B=12', 'T2A=32']),
               sc('set-ins1era2-era1ins2', ['PRE=4', 'T1A=11', 'T1B=22', 'T2A=21', 'T2B=12']),
               sc('set-ins2-ins2-K3', ['PRE=0', 'T1A=12', 'T2A=12'], K=3),
